@@ -361,7 +361,7 @@ class Driver:
     def _record(self, ev, extra_wait=0.0):
         """after an event: give a pending pull time to complete, then snapshot"""
         if self.pending_pull:
-            wait = WAIT_PULL
+            wait = WAIT_PULL if not self.case.get("policy") else 0.04
             exp = self.case.get("expect")
             if exp is not None:
                 k = len(self.events)
@@ -552,8 +552,8 @@ class Driver:
             self._record([ev[0]])
 
     def ev_timeout(self, ev):
-        # the consumer is blocked in a pull; wait for the TimeoutError (timeout is 0.3 s)
-        end = time.time() + 6.0
+        # the consumer is blocked in a pull; wait for the TimeoutError (timeout is 2 s)
+        end = time.time() + 8.0
         while time.time() < end and not self._consumer_idle():
             time.sleep(0.01)
         if self._consumer_idle():
@@ -572,12 +572,14 @@ class Driver:
         infl = [self.trk_of_batch[i] for i, b in enumerate(self.backend.batches) if not b["started"]] if self.backend else []
         stall = self.case.get("stall_after")
         stalled = stall is not None and self.call_no == 1 and len(self.cb_started) >= stall
-        if infl and not stalled and not (self.case.get("no_cb_first_call") and self.call_no == 1):
+        in_start = at_cbs or (self.consumer_busy and not self.pending_pull)
+        hold = self.case.get("cb_after_start") and self.call_no == 1 and in_start
+        if infl and not stalled and not hold and not (self.case.get("no_cb_first_call") and self.call_no == 1):
             evs.append("cb")
         if self.mid:
             evs.append("cbfin")
         if self._consumer_idle() and self.gen is not None and not self.gen_done:
-            if self._pull_likely_ready() or self.rng.random() < 0.12 or not evs:
+            if self._pull_likely_ready() or self.rng.random() < self.case.get("p_blocked_pull", 0.12) or not evs:
                 evs += ["pull", "pull"]
             evs += ["close"]
         if self._consumer_idle() and (self.gen is None or self.gen_done) and calls_left:
@@ -611,18 +613,37 @@ class Driver:
             if not evs or (evs == ["cb"] and False):
                 if self.pending_pull and timeout_case and not self.replay:
                     self.ev_timeout(["timeout"])
+                    if self.pending_pull:
+                        break          # the TimeoutError did not come: recorded, judged by the oracle
                     continue
                 break
             # bias: finish callbacks and dispatches promptly, pulls when something may be ready
             weights = {"dispatch": 4, "cb": 3, "cbfin": 3, "pull": 2, "close": p_close * 10, "call": 5}
             ws = [weights[e] for e in evs]
             k = self.rng.choices(evs, ws)[0] if sum(ws) > 0 else "pull"
+            if self.case.get("policy") == "pull_first" and self.call_no == 1:
+                # scripted shape for the timeout scenarios: the consumer always asks first, completions come
+                # while it waits, the dispatch section of a callback runs before the next request
+                for pref in ("dispatch", "cbfin", "pull", "cb"):
+                    if pref in evs and not (pref == "cb" and not self.pending_pull):
+                        k = pref
+                        break
             if k == "pull" and "pull" not in evs:
                 break
             if k == "dispatch":
                 self.ev_dispatch(["dispatch", self.rng.choice(bsizes)])
             elif k == "cb":
                 tid = self.rng.choice(infl) if self.rng.random() < 0.5 else infl[0]
+                if timeout_case and self.rng.random() < 0.7:
+                    # bias (reads internals, decides nothing): complete the job the unordered retrieval loop
+                    # would pick as its timeout-control job
+                    try:
+                        ctl = next(iter(self.par._jobs_set), None)
+                        for i, b in enumerate(self.backend.batches):
+                            if b["cb"] is ctl and self.trk_of_batch[i] in infl:
+                                tid = self.trk_of_batch[i]
+                    except Exception:
+                        pass
                 self.ev_cb(["cb", tid, "fail" if self.rng.random() < p_fail else "run"])
             elif k == "cbfin":
                 self.ev_cbfin(["cbfin", self.rng.choice(self.mid), self.rng.choice(bsizes)])
